@@ -227,8 +227,16 @@ package wire
 //@   ensures ig.discard ==> OUTLEN[&ig.g.buf] == old(OUTLEN[&ig.g.buf]) && OUTEV[&ig.g.buf] == old(OUTEV[&ig.g.buf])
 //@   ensures !ig.discard ==> OUTLEN[&ig.g.buf] == old(OUTLEN[&ig.g.buf]) + 1 && OUTEV[&ig.g.buf] == old(OUTEV[&ig.g.buf])[old(OUTLEN[&ig.g.buf]) := evs(format, args)]
 
+// C16: the import table is keyed by the canonical import path (the part after the last "vendor/"
+// path element), an alias once chosen for a path never changes, and a call adds at most the entry of
+// the canonical path of its argument.
+//@ define canonPath(path string) = (strings.LastIndex(path, "vendor/") != 0 - 1 && (strings.LastIndex(path, "vendor/") == 0 || str_at(path, strings.LastIndex(path, "vendor/") - 1) == 47)) ? substr(path, strings.LastIndex(path, "vendor/") + 7, len(path)) : path
 //@ func (*gen).qualifyImport
 //@   modifies mapof(g.imports)
+//@   ensures [C16] path != g.pkg.PkgPath ==> has(g.imports, canonPath(path)) && result == g.imports[canonPath(path)].name
+//@   ensures [C16] forall k string :: old(has(g.imports, k)) ==> has(g.imports, k) && g.imports[k] == old(g.imports[k])
+//@   ensures [C16] forall k string :: has(g.imports, k) && !old(has(g.imports, k)) ==> k == canonPath(path)
+//@   ensures [C16] path == g.pkg.PkgPath ==> result == ""
 //@ func (*gen).qualifiedID
 //@   modifies mapof(g.imports)
 //@ func (*gen).qualifyPkg
@@ -497,7 +505,16 @@ package wire
 // H2: every non-empty output starts with the generated-code marker, the go:generate line and the
 // "!wireinject" constraint, and only then the package clause.
 //@ define frameHead(b *bytes.Buffer, name string) = OUTLEN[b] >= 5 && OUTEV[b][0] == ev("\x00WriteString", "// Code generated by Wire. DO NOT EDIT.\n\n") && evfmt(OUTEV[b][1]) == "\x00WriteString" && OUTEV[b][2] == ev("\x00WriteString", "//+build !wireinject\n\n") && OUTEV[b][3] == ev("\x00WriteString", "package ") && OUTEV[b][4] == ev("\x00WriteString", name)
+// C16: when the import lines are written, the list they are written from is in ascending order of the
+// (canonical) import path and holds keys of the import table only: the order does not depend on the
+// iteration order of the table.  (That line k of the loop prints element k is the range loop itself; a
+// trace invariant for it was tried and dropped: unstable solver behaviour.)
+//@ define sortedStrs(xs []string) = forall a, b :: 0 <= a && a < b && b < len(xs) ==> str_le(xs[a], xs[b])
 //@ func (*gen).frame
+//@   loop 1 invariant [C16] forall q :: 0 <= q && q < len(imps) ==> has(g.imports, imps[q])
+//@   loop 2 invariant [C16] sortedStrs(imps) && (forall q :: 0 <= q && q < len(imps) ==> has(g.imports, imps[q]))
+//@   loop 3 invariant [C16] forall q :: 0 <= q && q < len(anonImps) ==> has(g.anonImports, anonImps[q])
+//@   loop 4 invariant [C16] sortedStrs(anonImps) && (forall q :: 0 <= q && q < len(anonImps) ==> has(g.anonImports, anonImps[q]))
 //@   lensures [C18] OUTLEN[addr(buf)] > 0 ==> frameHead(addr(buf), g.pkg.Name)
 //@   loop 1 invariant [C18] frameHead(addr(buf), g.pkg.Name)
 //@   loop 2 invariant [C18] frameHead(addr(buf), g.pkg.Name)
